@@ -315,7 +315,17 @@ class CFG:
         exits = exits or [self.exit, self.raise_exit]
         virtual = -1
         ids = [n.id for n in self.nodes]
-        succ = {n.id: [s.id for s in n.succ] for n in self.nodes}
+        # only paths that can reach one of the chosen exits count (e.g. ignore exceptional paths
+        # when post-dominance w.r.t. the normal exit is asked for)
+        can = {e.id for e in exits}
+        changed = True
+        while changed:
+            changed = False
+            for n in self.nodes:
+                if n.id not in can and any(s.id in can for s in n.succ):
+                    can.add(n.id)
+                    changed = True
+        succ = {n.id: [s.id for s in n.succ if s.id in can] for n in self.nodes}
         for e in exits:
             succ[e.id] = succ[e.id] + [virtual]
         allset = set(ids) | {virtual}
